@@ -59,4 +59,73 @@ theorem doubleMultJac_refines (u v : ℕ) (H Q : JacPoint) (hH : JValid p c H) (
   rw [addJac_refines hp _ _ (multJac_spec hp u H hH).1 (multJac_spec hp v Q hQ).1,
     multJac_refines hp u H hH, multJac_refines hp v Q hQ]
 
+/-! ## the affine entry points `mult`, `doubleMult` (what `Btc.EC.ops` runs)
+
+`aff_from_jac` can only express a result that is not a point of order 2 (`affFromJac_two_torsion`);
+the hypothesis `NoTwoTorsion` (true when the point group has odd exponent, e.g. prime odd order with
+cofactor 1) rules these out. -/
+
+variable (p) in
+/-- the curve has no point of order 2 -/
+def NoTwoTorsion (c : CurveGroup) : Prop :=
+  ∀ P : (curveOf p c).toAffine.Point, P + P = 0 → P = 0
+
+omit hp in
+/-- a group of odd exponent has no 2-torsion -/
+theorem noTwoTorsion_of_odd_exponent (n : ℕ) (hn : n % 2 = 1)
+    (h : ∀ P : (curveOf p c).toAffine.Point, n • P = 0) : NoTwoTorsion p c := by
+  intro P hP
+  have h2 : 2 • P = 0 := by rw [two_nsmul]; exact hP
+  have := h P
+  rw [← Nat.div_add_mod n 2, hn, add_nsmul, mul_nsmul, h2, nsmul_zero, zero_add, one_nsmul]
+    at this
+  exact this
+
+/-- without 2-torsion a finite valid triple has `Y ≠ 0` in the field -/
+theorem Y_ne_zero_of_noTwoTorsion (h2 : NoTwoTorsion p c) (Q : JacPoint) (hQ : JValid p c Q)
+    (hQz : Q.2.2 ≠ 0) : (Q.2.1 : ZMod p) ≠ 0 := by
+  intro hY
+  obtain ⟨_, _, _, hne⟩ := affFromJac_two_torsion hp Q hQ hQz hY
+  apply hne
+  apply h2
+  rw [← doubleJac_refines hp Q hQ]
+  apply absJ_of_Z_eq_zero
+  apply doubleJacHelper_Z_reduced hp
+  have hc := doubleJac_eq hp Q
+  have : castJ p (doubleJac c Q) 2 = 0 := by rw [hc]; simp [dbl, dblZ, hY]
+  exact this
+
+omit hp in
+/-- `mult m Q = (m mod n) • Q` for every integer `m` and every valid affine `Q` (infinity included) -/
+theorem mult_refines (C : Curve) (hC : C.p = (p : ℤ)) (h2 : NoTwoTorsion p C.toCurveGroup)
+    (m : ℤ) (Q : Point) (hQ : AValid p C.toCurveGroup Q) :
+    ∃ A : Point, mult C m Q = some A ∧ AValid p C.toCurveGroup A ∧
+      absA p C.toCurveGroup A = (m % C.n).toNat • absA p C.toCurveGroup Q := by
+  have hJ := multJac_spec hC (m % C.n).toNat (jacFromAff Q) (JValid_jacFromAff hQ)
+  obtain ⟨A, hA, hAv, hAe⟩ := affFromJac_absA hC _ hJ.1
+    (by
+      by_cases hz : (multJac C.toCurveGroup (m % C.n).toNat (jacFromAff Q)).2.2 = 0
+      · exact Or.inl hz
+      · exact Or.inr (Y_ne_zero_of_noTwoTorsion hC h2 _ hJ.1 hz))
+  exact ⟨A, hA, hAv, by rw [hAe, hJ.2]; rfl⟩
+
+omit hp in
+/-- `doubleMult u H v Q = (u mod n) • H + (v mod n) • Q` -/
+theorem doubleMult_refines (C : Curve) (hC : C.p = (p : ℤ)) (h2 : NoTwoTorsion p C.toCurveGroup)
+    (u v : ℤ) (H Q : Point) (hH : AValid p C.toCurveGroup H) (hQ : AValid p C.toCurveGroup Q) :
+    ∃ A : Point, doubleMult C u H v Q = some A ∧ AValid p C.toCurveGroup A ∧
+      absA p C.toCurveGroup A = (u % C.n).toNat • absA p C.toCurveGroup H
+        + (v % C.n).toNat • absA p C.toCurveGroup Q := by
+  have hJH := multJac_spec hC (u % C.n).toNat (jacFromAff H) (JValid_jacFromAff hH)
+  have hJQ := multJac_spec hC (v % C.n).toNat (jacFromAff Q) (JValid_jacFromAff hQ)
+  have hS := addJac_spec hC _ _ hJH.1 hJQ.1
+  obtain ⟨A, hA, hAv, hAe⟩ := affFromJac_absA hC _ hS.1
+    (by
+      by_cases hz : (addJac C.toCurveGroup
+          (multJac C.toCurveGroup (u % C.n).toNat (jacFromAff H))
+          (multJac C.toCurveGroup (v % C.n).toNat (jacFromAff Q))).2.2 = 0
+      · exact Or.inl hz
+      · exact Or.inr (Y_ne_zero_of_noTwoTorsion hC h2 _ hS.1 hz))
+  exact ⟨A, hA, hAv, by rw [hAe, hS.2, hJH.2, hJQ.2]; rfl⟩
+
 end Btc.C01
